@@ -12,7 +12,7 @@
 
 use std::convert::TryFrom;
 
-use anyhow::Error;
+use anyhow::{bail, Error};
 
 use crate::bdl::BdlBlock;
 
@@ -71,8 +71,11 @@ impl TryFrom<BdlBlock> for Floor {
         let z = attrs.remove_f32("Z").unwrap_or_default();
 
         // El espacio coordenado de planta es igual al del edificio, salvo por la Z
-        assert!(attrs.remove_f32("X").unwrap_or_default() == 0.0);
-        assert!(attrs.remove_f32("Y").unwrap_or_default() == 0.0);
+        if attrs.remove_f32("X").unwrap_or_default() != 0.0
+            || attrs.remove_f32("Y").unwrap_or_default() != 0.0
+        {
+            bail!("Planta {} con origen (X, Y) distinto de cero", name);
+        }
 
         // Las versiones antiguas de LIDER usan SPACE-HEIGHT y dejan a cero FLOOR-HEIGHT
         // HULC escribe FLOOR-HEIGHT con el mismo valor que SPACE-HEIGHT
